@@ -883,6 +883,31 @@ func genSession(t *rapid.T, service string, slot int, shared map[string][]string
 		}
 		return s
 	}
+	// segmentation: in a third of the sessions one or two requests reach the server in two
+	// segments, as two consecutive steps - other sessions' steps may fall into the gap, while
+	// the service holds a half-read request (seed C03-r5-1: a preview buffer shared by all
+	// connections is only visible when another session stores between the two halves of a
+	// value). The lone reference run delivers the same two segments.
+	if len(s.Steps) > 0 && rapid.IntRange(0, 2).Draw(t, "segmented") == 0 {
+		for k := rapid.IntRange(1, 2).Draw(t, "nsplit"); k > 0; k-- {
+			i := rapid.IntRange(0, len(s.Steps)-1).Draw(t, "split-step")
+			w := vlib.UnHex(s.Steps[i])
+			if len(w) < 2 || strings.Contains(s.Names[i], "/part") {
+				continue
+			}
+			cut := rapid.IntRange(1, len(w)-1).Draw(t, "cut")
+			if rapid.Bool().Draw(t, "cut-late") {
+				// inside the last third: the body of a command that announces one
+				cut = rapid.IntRange(len(w)-1-(len(w)-1)/3, len(w)-1).Draw(t, "latecut")
+			}
+			steps := append([]string{}, s.Steps[:i]...)
+			steps = append(steps, vlib.Hex(w[:cut]), vlib.Hex(w[cut:]))
+			s.Steps = append(steps, s.Steps[i+1:]...)
+			names := append([]string{}, s.Names[:i]...)
+			names = append(names, s.Names[i]+"/part1", s.Names[i]+"/part2")
+			s.Names = append(names, s.Names[i+1:]...)
+		}
+	}
 	// how the client leaves: it just closes (half of the draws), says goodbye the way its
 	// protocol has it and then closes, or aborts the connection
 	switch rapid.SampledFrom([]string{"close", "close", "close", "bye", "bye", "bye", "bye+reset", "reset"}).Draw(t, "ending") {
@@ -1000,6 +1025,12 @@ func countFams(r *vlib.Run, test string, c isoCase) {
 		if s.End == "reset" {
 			r.Label(test+"/session-aborted", 1)
 		}
+		for _, n := range s.Names {
+			if strings.HasSuffix(n, "/part1") {
+				r.Label(test+"/request-in-two-segments", 1)
+				break
+			}
+		}
 	}
 }
 
@@ -1012,7 +1043,7 @@ func TestInterleavings(t *testing.T) {
 		}
 		return
 	}
-	r.Rule("for ldap, ftp, smtp, telnet, redis, memcached (TCP and UDP), http, tftp: 2-3 scripted sessions (2-8 lock-step request/response steps, per-session marker strings next to a per-case vocabulary of 1-3 arguments per kind that all sessions share - INFO sections, keys, paths, hosts, user names, DNs, file names - each use in a drawn spelling: as is / upper / capitalised / mixed case; command names in drawn case too; distinct client hosts whose address family is drawn per case or per session: IPv4 in 16- and 4-byte form, IPv6 global / link-local / unique-local; each session ends as drawn: half-close, the protocol's own goodbye as last step, abort; in a quarter of the cases a session is ended as soon as it is through instead of after all) on a FRESH server instance per run; a drawn interleaving of their steps plus, for small cases (<=7 steps in total), ALL merges; oracle = differential: bytes received and events recorded (by source address) for each session equal those of the same session alone on a fresh instance; one session id per connection, never shared; non-trivial = >=2 sessions mid-dialogue with >=1 alternation; distinct by sessions+order")
+	r.Rule("for ldap, ftp, smtp, telnet, redis, memcached (TCP and UDP), http, tftp: 2-3 scripted sessions (2-8 lock-step request/response steps, per-session marker strings next to a per-case vocabulary of 1-3 arguments per kind that all sessions share - INFO sections, keys, paths, hosts, user names, DNs, file names - each use in a drawn spelling: as is / upper / capitalised / mixed case; command names in drawn case too; distinct client hosts whose address family is drawn per case or per session: IPv4 in 16- and 4-byte form, IPv6 global / link-local / unique-local; in a third of the sessions one or two requests are delivered in two segments as two steps, so that other sessions' steps fall between the halves of a request; each session ends as drawn: half-close, the protocol's own goodbye as last step, abort; in a quarter of the cases a session is ended as soon as it is through instead of after all) on a FRESH server instance per run; a drawn interleaving of their steps plus, for small cases (<=7 steps in total), ALL merges; oracle = differential: bytes received and events recorded (by source address) for each session equal those of the same session alone on a fresh instance; one session id per connection, never shared; non-trivial = >=2 sessions mid-dialogue with >=1 alternation; distinct by sessions+order")
 	r.Rapid(t, "TestInterleavings", r.Pick(70, 700), func(rt *rapid.T) {
 		service := rapid.SampledFrom(services).Draw(rt, "service")
 		key, udp := transport(service)
